@@ -83,6 +83,34 @@ def _arbitrary(rng, m):
     return [[rng.randint(-16, 16) / 2 for _ in range(ns)] for _ in range(m["T"])]
 
 
+D18 = "SKIP:D18-infeasible-choice-reported-where-the-feasible-maximum-is-minus-infinity"
+
+
+def known_finding_d18(ctx, res):
+    """D18 (known_findings.json): the stored reproducer is re-run; while the code still reports an infeasible choice with value
+    -inf where the feasible maximum is -inf, TracePipeline sets that row aside (Bellman!RowChoice) and says so in its diagnostics:
+    reported as KNOWN-FINDING.  Anything else the reproducer shows is judged as usual."""
+    import json
+
+    from .. import drive, tlc
+    from ..core import VERIF, add_violation, load_known
+
+    ent = next((k for k in load_known(ctx.prop) if k["id"] == "D18" and k["status"] == "known"), None)
+    if ent is None:
+        return
+    rep = json.loads((VERIF / ent["reproducer"]).read_text())
+    spec = mk_spec(10**6, rep["mdl"], ["c02"], [{"op": "simulate", "target": rep["target"], "init": rep["init"], "seed": rep["seed"],
+                                                  "vsrc": "own"}], label="D18 reproducer")
+    case = drive.run_cases([spec], nproc=1)[0]
+    v = tlc.validate_traces("TracePipeline", [case], nproc=1)[0][case["cid"]]
+    if v["v"][0] == "FAIL":
+        add_violation(ctx, res, v["v"][1], {"kind": "pipeline", "property": ctx.prop, "spec": spec, "case": case, "verdict": v},
+                      f"D18 reproducer fails differently: {v['v'][2][:200]}")
+    elif ent["match"]["diag"] in (v.get("diag") or []):
+        res.known.append("D18: agent whose feasible choices all have objective -inf (known/D18.json: period 0, r=0, w=7/2) is reported "
+                         "with value -inf and an infeasible choice")
+
+
 def run(ctx: Ctx) -> Result:
     res = Result(ctx.prop)
     if ctx.thorough:
@@ -95,6 +123,7 @@ def run(ctx: Ctx) -> Result:
         res.merge_cov(states=mc["distinct"], transitions=mc["generated"], mc_states=mc["distinct"])
     specs = make_specs(ctx, ctx.n(110, 1500))
     run_pipeline(ctx, res, specs, nontrivial=nontrivial)
+    known_finding_d18(ctx, res)
     finalize_cov(res, "seeded random models over the lattice {filtered, unfiltered discrete choice} x {0,1,2 continuous "
                       "choices of unequal size} plus 5 extra strata; 1-8 agents on grid nodes, inside cells and outside "
                       "the grid range; value arrays in use = solve output / the combined target / arbitrary arrays; "
